@@ -235,8 +235,15 @@ def entry_points(cls, s, x, fc, handler=None):
     def ep_module_validate():
         impl.jsonschema.validate(x, s, cls=cls, **kw())
 
-    for name, f in (("is_valid", ep_is_valid), ("iter_errors", ep_iter_errors), ("validate", ep_validate),
-                    ("jsonschema.validate", ep_module_validate)):
+    def ep_module_validate_no_cls():
+        impl.jsonschema.validate(x, s, **kw())
+
+    eps = [("is_valid", ep_is_valid), ("iter_errors", ep_iter_errors), ("validate", ep_validate),
+           ("jsonschema.validate", ep_module_validate)]
+    if cls is impl.CLS[7] and not (isinstance(s, dict) and "$schema" in s):
+        # the class is then chosen by jsonschema.validate itself: the latest draft for a schema that names none
+        eps.append(("jsonschema.validate(no cls)", ep_module_validate_no_cls))
+    for name, f in eps:
         try:
             f()
         except Exception as e:      # noqa: the oracle classifies it
